@@ -252,7 +252,9 @@ pub fn process_line(v: &Value, want: &MWant, rep: &mut Report) {
     if specs.iter().any(|s| s["mn"].as_i64() != s["mx"].as_i64() && s["mn"].as_i64() != Some(2)) {
         rep.nontrivial.insert(hs);
     }
-    rep.sample(json!({"history": h, "spec": specs}));
+    if rep.nontrivial.contains(&hs) {
+        rep.sample(json!({"history": h, "spec": specs}));
+    }
     for &sc in &want.scales {
         let r = std::panic::catch_unwind(std::panic::AssertUnwindSafe(|| replay(h, &ops, &specs, sc, want, &mut *rep)));
         if r.is_err() {
